@@ -30,6 +30,9 @@ for c in F.CONFIGS:
             if cs2:
                 callers[callee] = cs2
         it["callers"] = callers
+        # every named function and method of the reference tree: a function that is NOT in this list did not exist when the
+        # rules were written, so no rule can mean it by its name -- it is an extracted helper, whatever it is called
+        it["bodies"] = sorted({F.norm(b["path"]) for b in raw["bodies"] if b["kind"] in ("Fn", "AssocFn")})
         out["%s|%s" % (raw["crate"], raw.get("config"))] = it
 json.dump(out, open(os.path.join(V, "analysis", "ref_items.json"), "w"), indent=0, sort_keys=True)
 print({k: {kk: len(vv) for kk, vv in v.items()} for k, v in out.items()})
